@@ -270,6 +270,9 @@ def words(maxlen):
 
 
 def run(report, tier, only=None):
+    from vmc.oracles import selftest
+
+    selftest.run(report)
     outer_len = 1 if tier == "quick" else 2
     cases = []
     variants = [{}] + [{"structure": s} for s in STRUCTURES[1:]] + [{"palettes": 2}, {"vb": "box100"}, {"palettes": 2, "vb": "box100"}]
